@@ -122,5 +122,111 @@ func machCountStream(seed uint64, n int) {
 		for i := 0; i < n; i++ {
 			emit(machCountCase(r, spec))
 		}
+		for i := 0; i < n; i++ {
+			if l := winCountCase(r, spec); l != "" {
+				emit(l)
+			}
+		}
 	}
+}
+
+// ---------------------------------------------------------------------------------------
+// C03 with bank switching: a straight-line program selects a bank / block / LUT entry / I/O bank, uses the window,
+// selects another one and uses the window again (often the same addresses).  The statistics of every PHYSICAL byte
+// afterwards (swept through the linear view, LUT counters included) are compared with the accesses of the
+// specification's own run resolved through the documented map at the time of each access: an access is counted on
+// the byte it reached, not on whatever else shares its 16-bit address.
+
+func winCountCase(r *rng.R, spec string) string {
+	model := r.Intn(2)
+	p := []uint8{}
+	sta := func(v uint8, a uint16) { p = append(p, 0xA9, v, 0x8D, lo(a), hi(a)) }
+	var selectBank func()
+	var winLo, winLen int
+	storesOk := true
+	switch {
+	case strings.HasPrefix(spec, "XSixteen"):
+		banks := 64
+		if spec == "XSixteen2048K" {
+			banks = 256
+		}
+		if r.Bool() {
+			selectBank = func() { sta(uint8(r.Intn(banks)), 0x0000) }
+			winLo, winLen = 0xA000, 0x2000
+		} else {
+			selectBank = func() { sta(uint8(r.Intn(32)), 0x0001) }
+			winLo, winLen = 0xC000, 0x4000
+			storesOk = false // ROM: loads only
+		}
+	case strings.HasPrefix(spec, "GeoRam"):
+		blocks := 32
+		if spec == "GeoRam_2048K" {
+			blocks = 128
+		}
+		selectBank = func() { sta(uint8(r.Intn(blocks)), 0xDFFF); sta(uint8(r.Intn(64)), 0xDFFE) }
+		winLo, winLen = 0xDE00, 0x100
+	case strings.HasPrefix(spec, "F256"):
+		if r.Bool() {
+			// slot 5 ($A000-$BFFF) of the active LUT 0 through the edit window
+			nb := 64
+			if spec == "F256_768K" {
+				nb = 96
+			}
+			sta(0x80, 0x0000)
+			selectBank = func() { sta(uint8(r.Intn(nb)), 0x000D) }
+			winLo, winLen = 0xA000, 0x2000
+		} else {
+			selectBank = func() { sta(uint8(r.Intn(4)), 0x0001) }
+			winLo, winLen = 0xC000, 0x2000
+		}
+	default:
+		return ""
+	}
+	addrs := []uint16{}
+	for i := 0; i < 3; i++ {
+		addrs = append(addrs, uint16(winLo+r.Intn(winLen)))
+	}
+	for round := 0; round < 2+r.Intn(2); round++ {
+		selectBank()
+		for k := 0; k < 1+r.Intn(4); k++ {
+			a := addrs[r.Intn(len(addrs))]
+			switch c := r.Intn(4); {
+			case c == 0 || !storesOk:
+				p = append(p, 0xAD, lo(a), hi(a)) // LDA abs
+			case c == 1:
+				sta(r.BByte(), a)
+			case c == 2:
+				p = append(p, 0xEE, lo(a), hi(a)) // INC abs
+			default:
+				p = append(p, 0xA2, 0x00, 0xBD, lo(a), hi(a)) // LDX #0; LDA abs,X
+			}
+		}
+	}
+	p = append(p, 0x00)
+	pend("wincount %s %d %s", spec, model, hexOf(p))
+	cfg := emuconfig.DefaultConfig()
+	cfg.MemSpec = spec
+	if model == 1 {
+		cfg.Model = "65C02"
+	}
+	c, err := cfg.NewCpu()
+	if err != nil {
+		panic(err)
+	}
+	res := "halt"
+	var sb strings.Builder
+	if protect(func() {
+		for i, b := range p {
+			c.Mem.Store(0x0400+uint16(i), b)
+		}
+		c.Mem.ClearStatistics()
+		if e := c.RunExt(0x0400, true); e != nil {
+			res = "error"
+		}
+		sweepStats(&sb, spec, c.Mem)
+	}) {
+		res = "hostcrash"
+	}
+	count("wincount." + spec)
+	return fmt.Sprintf("wincount %s %d %s => %s | S%s", spec, model, hexOf(p), res, sb.String())
 }
